@@ -529,7 +529,7 @@ def cgraph_case(r, shape, use_float, tier):
 
 def gen_cgraph_cases(rng, tier):
     items = []
-    nz, nf = (48, 14) if tier == "quick" else (320, 70)
+    nz, nf = (48, 14) if tier == "quick" else (220, 50)
     for shape in CG_SHAPES:
         for i in range(nz):
             items.append(build(cgraph_case(rng.fork(f"cg:{shape}:{i}"), shape, False, tier)))
